@@ -297,14 +297,38 @@ def rule_templates(ctx):
     # matcher
     mt = prog.one(EV + 'match_stack_pattern')
     ctx.touch(mt)
-    rets = sorted((canon(mt.rvalue_expr(d[3])), tuple(util.guards_at(mt, d[1]))) for d in mt.defs().get(0, []) if d[0] == 'assign')
-    rng = 'Range::Range{start: 0, end: len(a2)}'
-    exp = sorted([
-        ('false', ('len(a1) != len(a2)',)),
-        ('true', ('len(a1) == len(a2)', 'next(%s) is None' % rng)),
-        ('false', ('a1[each(%s)] != a2[each(%s)]' % (rng, rng), 'len(a1) == len(a2)', 'next(%s) is Some' % rng)),
-    ])
-    ctx.check('templates', 'matcher:equal-length-and-all-equal', rets == exp, mt, 'match_stack_pattern returns %s' % rets)
+    rets = []
+    for d in mt.defs().get(0, []):
+        alts = util.value_alternatives(mt, d[3]['op']) if d[0] == 'assign' and d[3]['k'] == 'use' else None
+        if alts:
+            here = set(util.guards_at(mt, d[1]))
+            rets.extend((canon(e), tuple(sorted(here | set(util.guards_at(mt, bb))))) for e, bb in alts)
+        else:
+            rets.append((canon(mt.rvalue_expr(d[3]) if d[0] == 'assign' else mt.call_expr(d[2])), tuple(util.guards_at(mt, d[1]))))
+    # two accepted spellings of the pairwise walk: an index loop over 0..len (of either slice, the lengths are
+    # equal there) or zip of the two slices; guards are abstracted to tokens
+    walks = [('Range::Range{start: 0, end: len(a2)}', 'a1[each(%s)] != a2[each(%s)]'), ('Range::Range{start: 0, end: len(a1)}', 'a1[each(%s)] != a2[each(%s)]'),
+             ('zip(a1, a2)', 'each(%s).0 != each(%s).1')]
+
+    def tokens(g, it, ne):
+        out = set()
+        for x in g:
+            if x in ('len(a1) != len(a2)',):
+                out.add('LEN_NE')
+            elif x in ('len(a1) == len(a2)',):
+                out.add('LEN_EQ')
+            elif x == 'next(%s) is None' % it:
+                out.add('EXHAUSTED')
+            elif x == 'next(%s) is Some' % it:
+                out.add('ITEM')
+            elif x == ne % (it, it):
+                out.add('ITEM_NE')
+            else:
+                out.add('?' + x)
+        return frozenset(out)
+    exp = sorted([('false', frozenset(['LEN_NE'])), ('true', frozenset(['LEN_EQ', 'EXHAUSTED'])), ('false', frozenset(['LEN_EQ', 'ITEM', 'ITEM_NE']))], key=repr)
+    okm = any(sorted([(v, tokens(g, it, ne)) for v, g in rets], key=repr) == exp for it, ne in walks)
+    ctx.check('templates', 'matcher:equal-length-and-all-equal', okm, mt, 'match_stack_pattern returns %s' % sorted(rets))
     eq = prog.one('<blockchain::proto::script::custom::StackElement as std::cmp::PartialEq>::eq')
     ctx.touch(eq)
     rets = sorted((canon(eq.rvalue_expr(d[3])) if d[0] == 'assign' else canon(eq.call_expr(d[2])), tuple(util.guards_at(eq, d[1]))) for d in eq.defs().get(0, []))
@@ -320,18 +344,24 @@ def rule_addr(ctx):
     prog = ctx.prog
     cs_ = prog.one('custom::compute_stack')
     ctx.touch(cs_)
+    # the P2PK wrapper (hash160 of the key, then the common encoder) may be a helper or written in place: compare
+    # after inlining it
     exp = {
-        'Pay2PublicKey': ('public_key_to_addr', ['data(a1.elements[0])?', 'a2']),
+        'Pay2PublicKey': ('hash_160_to_address', ['hash(data(a1.elements[0])?)', 'a2']),
         'Pay2PublicKeyHash': ('hash_160_to_address', ['data(a1.elements[2])?', 'a2']),
         'Pay2ScriptHash': ('hash_160_to_address', ['data(a1.elements[1])?', '5']),
     }
+    wrappers = set(b.path for b in prog.find('custom::public_key_to_addr'))
     got = {}
     for c in cs_.calls:
         mn = mir.method_name(c.name)
         if mn in ('public_key_to_addr', 'hash_160_to_address'):
             g = util.guards_at(cs_, c.bb)
             var = [re.match(r'a1\.pattern is (\w+)$', x).group(1) for x in g if re.match(r'a1\.pattern is (\w+)$', x)]
-            got[var[0] if var else '?'] = (mn, [canon(a) for a in cs_.arg_exprs(c)], c)
+            e = prog.inline_only(cs_.call_expr(c), wrappers) if wrappers else cs_.call_expr(c)
+            e = peel(e, calls=False)
+            if e[0] == 'call':
+                got[var[0] if var else '?'] = (mir.method_name(e[1]), [canon(a) for a in e[2]], c)
     for var, (fn_, args) in exp.items():
         g = got.get(var)
         ctx.check('addr', 'address:%s' % var, g is not None and g[0] == fn_ and g[1] == args, g[2] if g else cs_,
@@ -365,10 +395,10 @@ def rule_addr(ctx):
     enc = [c for c in h.calls if mir.method_name(c.name) == 'encode']
     ctx.check('addr', 'base58check:encode-whole-buffer', len(enc) == 1 and 'base58' in enc[0].name and canon(h.op_expr(enc[0].args[0])) == buf and h.dominates(seq[2][0], enc[0].bb), h,
               'base58::encode(buffer) after the checksum')
-    pk = prog.one('custom::public_key_to_addr')
-    ctx.touch(pk)
-    hc = [c for c in pk.calls if mir.method_name(c.name) == 'hash']
-    ctx.check('addr', 'p2pk:hash160-of-key', canon(pk.ret_expr()) == 'hash_160_to_address(hash(a1), a2)' and len(hc) == 1 and 'hash160::Hash' in hc[0].rfull, pk, canon(pk.ret_expr()))
+    hc = [c for bd in [cs_] + [prog.bodies[w] for w in wrappers] for c in bd.calls if mir.method_name(c.name) == 'hash']
+    for w in wrappers:
+        ctx.touch(prog.bodies[w])
+    ctx.check('addr', 'p2pk:hash160-of-key', len(hc) == 1 and 'hash160::Hash' in hc[0].rfull, hc[0] if hc else cs_, 'the key is hashed with %s' % (hc[0].rfull if hc else '?'))
 
 
 COINS = {'Bitcoin': 0x00, 'TestNet3': 0x6f, 'Namecoin': 0x34, 'Litecoin': 0x30, 'Dogecoin': 0x1e, 'Myriadcoin': 0x32,
